@@ -20,6 +20,15 @@ tie   : (0) translator (every run): translate/cxx2lean.py (spec `interrupt`) reg
             benign call (no GEOS_interruptCancel in between) completes with the clean bytes after N polls, inputs'
             WKB unchanged, live heap did not grow / LeakSanitizer finds no new unreachable block.
             The Lean driver prints the model's prediction for the same case; the lines must be equal.
+            k now also covers every distinct CALL-STACK CONTEXT of a poll (first / last / one middle occurrence): the same
+            source line reached through different callers unwinds through different handlers.  Every 10th (op, input) pair
+            is a dense-linework input (> 100000 candidate chain pairs) for an operation whose checkpoints fire only every
+            100000th pair (noder of the overlay, noder inside the noding validation, EdgeSetIntersector).
+        (3) stream `unwind`: the REAL noding::ValidatingNoder::computeNodes under injected failures (wrapped noder throws
+            each exception class; validation fails; validation interrupted at each of its polls): the class and message
+            of the exception that leaves must be what Model/Interrupt/Unwind.lean (`validateFrame`, theorems in
+            Props/C14Unwind.lean) says.  A disagreement is turned into a property-level input by interrupting overlays
+            of dense linework at every poll.
 Because the model's prediction *is* the property's demand for that case (proved in Props/C14), every
 disagreement on the `ops` stream is a concrete failing (operation, input, k)."""
 import glob, json, os, re
@@ -27,7 +36,7 @@ import verif
 from verif import log
 
 LEVEL = "proof"
-PROPS = ["GeosModel.Props.C14"]
+PROPS = ["GeosModel.Props.C14", "GeosModel.Props.C14Unwind"]
 DRV = "drv_c14"
 ASAN_ENV = {"ASAN_OPTIONS": "detect_leaks=1:abort_on_error=0:symbolize=1", "UBSAN_OPTIONS": "print_stacktrace=1"}
 
@@ -181,7 +190,7 @@ def run_one(exe, case, env=None):
     impl = lines[-1] if lines else "harness-exit-%d" % rc
     if rc != 0:
         impl = "harness-exit-%d %s" % (rc, impl[:200])
-    stream = "proto" if case.startswith("S") else "ops"
+    stream = "proto" if case.startswith("S") else "unwind" if case.startswith("W") else "ops"
     rc2, got = verif.run_driver_lines(stream, [case], driver_exe=DRV)
     return impl, (got[0] if got else "")
 
@@ -242,6 +251,16 @@ def run(ctx):
         ctx.violation("geos::util::Interrupt functions behave differently from the protocol model on script: %s  impl: %s  model: %s" % (case, impl, model),
                       {"kind": "failing-input", "stream": "proto", "case": case, "impl": impl, "model": model, "signature": sig,
                        "replay_cmd": "%s replay <file with the case line>" % exe}, signature=sig)
+
+    # ---- (3) exception transparency of ValidatingNoder (the handler between the polls of the noding validation and the API)
+    r = verif.run_stream(exe, "unwind", ctx.seed, 480 if quick else 8000, ctx.work, shards=shards, driver_exe=DRV, env=ASAN_ENV)
+    corr["unwind"] = {"cases": r["cases"], "disagreements": len(r["disagreements"]) + r.get("more_disagreements", 0), "distribution": r["stats"]}
+    unwind_bad = None
+    if r["error"]:
+        ctx.violation("correspondence stream unwind could not run: %s" % r["error"][:500],
+                      {"kind": "tie-broken", "correspondence": "unwind", "detail": r["error"]}, nofail=True)
+    elif r["disagreements"]:
+        unwind_bad = min(r["disagreements"], key=lambda d: len(d[1]))
 
     # ---- (2) operations under ASan/LSan
     # thorough: bigger inputs, all k when N <= 32: ~10 s per (op, input) under ASan -> 24 per shard on up to 16 shards
@@ -329,6 +348,43 @@ def run(ctx):
         ctx.violation("%s — %s on %s (N=%s, %s k=%s, site %s); %d cases, ops %s" % (
             what, json.dumps(sig), c[1], c[4], c[5], c[6], short(c[7]) if len(c) > 7 else "-", len(g["cases"]), ",".join(sorted(g["ops"]))),
             obj, signature=sig)
+    if unwind_bad is not None:
+        idx, case, exp, got = unwind_bad
+        swallowed = [k for k, g in groups.items() if g["sig"].get("class") in ("interrupt-swallowed", "wrong-error-message")]
+        if not swallowed:
+            # the handler of ValidatingNoder no longer behaves like its model, and the ops stream did not show a property-level
+            # failure: interrupt unions of dense linework at every poll
+            hit = None
+            for sd in range(1, 7):
+                for op in ("union", "intersection"):
+                    head = "O %s %d 4 " % (op, ctx.seed * 100 + sd)
+                    impl, _ = run_one(exe, head + "0 clean 0")
+                    m = re.search(r"done polls=(\d+)", impl)
+                    if not m:
+                        continue
+                    N = int(m.group(1))
+                    for k in range(1, N + 1):
+                        c = head + "%d at %d -" % (N, k)
+                        i2, m2 = run_one(exe, c)
+                        if i2 != m2:
+                            hit = (c, i2, m2)
+                            break
+                    if hit:
+                        break
+                if hit:
+                    break
+            if hit:
+                c, i2, m2 = hit
+                cls, det = classify(c, i2, m2)
+                sig = {"class": cls, "via": "exception rewritten below OverlayNGRobust::Overlay"}
+                found_input = True
+                ctx.violation("interrupt requested at poll k does not stop the operation / is reported as another error (%s): %s" % (cls, c),
+                              {"kind": "failing-input", "stream": "ops", "case": c, "impl": i2, "spec": m2, "signature": sig,
+                               "unwind_case": case, "unwind_impl": exp, "unwind_model": got, "replay_cmd": "bin/check C14 --replay <this file>"}, signature=sig)
+            else:
+                ctx.violation("unwind: noding::ValidatingNoder::computeNodes lets a different exception out than its model says (case %s: impl %s, model %s); "
+                              "no overlay of dense linework was found on which the interrupt protocol fails" % (case, exp, got),
+                              {"kind": "tie-broken", "correspondence": "unwind", "case": case, "impl": exp, "model": got}, nofail=True)
     ctx.cov["support_correspondence"] = corr
     if not proved:
         lf = getattr(ctx, "lean_failure", None) or {}
